@@ -64,7 +64,7 @@ pub fn c15_case(combo: u64, rng: &mut Rng) -> Case {
     let mut p = crate::gen::Profile::default();
     p.faults = rng.chance(1, 2);
     let knobs = crate::gen::gen_knobs(rng, &p);
-    Case { cap, ctor: Flavour::Async, class, mask: rng.next(), knobs, tasks, main_keeps_roots: false, lock_harness: false }
+    Case { cap, ctor: Flavour::Async, class, mask: rng.next(), knobs, tasks, main_keeps_roots: false, lock_harness: false, epilogue: vec![] }
 }
 
 pub const C14_COMBOS: u64 = 10 * 40;
@@ -110,5 +110,5 @@ pub fn c14_case(combo: u64, rng: &mut Rng) -> Case {
     // the blocked victim is released when the prober's handles go away
     knobs.freeze = Some((1, j, 3000));
     let class = *rng.pick(&[Class::U32, Class::SmallDrop, Class::Big40Drop, Class::Usize]);
-    Case { cap, ctor: Flavour::Sync, class, mask: rng.next(), knobs, tasks, main_keeps_roots: false, lock_harness: false }
+    Case { cap, ctor: Flavour::Sync, class, mask: rng.next(), knobs, tasks, main_keeps_roots: false, lock_harness: false, epilogue: vec![] }
 }
